@@ -72,7 +72,8 @@ Definition bad_corr13 (cs : list tcase) : list N := map t_id (filter (fun c => n
 Definition bad_monitor13 (cs : list tcase) : list N := map t_id (filter (fun c => negb (monitor13 c)) cs).
 
 (* ---------- magnet links ---------- *)
-Inductive mobs := MObsNil | MObsErr | MObsOk (h : bytes) | MObsPanic.
+(* MObsOk: hash, name, tracker tiers, web seed URLs, whether every web seed is of the GetRight kind *)
+Inductive mobs := MObsNil | MObsErr | MObsOk (h name : bytes) (tiers : list (list bytes)) (ws : list bytes) (getright : bool) | MObsPanic.
 
 (* on the specified shapes the outcome is the model's; everywhere: no crash, and a hash has 20 bytes *)
 Definition corr_magnet (c : N * bytes * mobs) : bool :=
@@ -80,7 +81,11 @@ Definition corr_magnet (c : N * bytes * mobs) : bool :=
   negb (magnet_shape m) ||
   match read_magnet m, o with
   | MgNil, MObsNil | MgErr, MObsErr => true
-  | MgOk h, MObsOk h' => bytes_eqb h h'
+  | MgOk h, MObsOk h' dn tiers ws gr =>
+    let mp := magnet_params m in
+    bytes_eqb h h' && bytes_eqb (mp_name mp) dn && gr &&
+    (negb (forallb specified_url (param_values key_tr (query_of m) ++ param_values key_as (query_of m) ++ param_values key_ws (query_of m))) ||
+     (list_eqb strs_eqb (mp_tiers mp) tiers && strs_eqb (mp_webseeds mp) ws))
   | _, _ => false
   end.
 (* the hash named by the link: some 40 characters of the input are its hex form or some 32 its base32 form
@@ -104,7 +109,7 @@ Definition mon_magnet (c : N * bytes * mobs) : bool :=
   let '(_, m, o) := c in
   match o with
   | MObsPanic => false
-  | MObsOk h => (len h =? 20) && (negb (magnet_shape m) || (names_hash h m && spelled h m))
+  | MObsOk h _ _ _ _ => (len h =? 20) && (negb (magnet_shape m) || (names_hash h m && spelled h m))
   | _ => true
   end.
 Definition bad_corr_magnet (cs : list (N * bytes * mobs)) : list N := map (fun c => fst (fst c)) (filter (fun c => negb (corr_magnet c)) cs).
